@@ -49,12 +49,42 @@ def same_outcome(a: Outcome, b: Outcome):
         return deep_typed_eq(b.val, a.val)
     if a.kind == 'converr':
         try:
-            if str(a.exc) != str(b.exc):
-                return False, "error text differs"
+            ta, tb = str(a.exc), str(b.exc)
+            if ta != tb and _without_tracebacks(ta) != _without_tracebacks(tb):
+                return False, f"error text differs: {_first_difference(ta, tb)}"
         except Exception:
             pass
         return True, ''
     return (type(a.exc) is type(b.exc)), f"{a.brief()} vs {b.brief()}"
+
+
+def _without_tracebacks(text):
+    """The message without the stack listings of its causes (frames and chained-exception banners; the final 'ExcType: message' lines
+    stay). One alarm of a thorough sweep under heavy load showed two texts of the same (T, v) that differed by 44 characters and could
+    not be reproduced on either tree; what a cause's stack listing contains is not part of any property here."""
+    out, skip = [], False
+    for ln in text.split('\n'):
+        st = ln.strip()
+        if skip:
+            skip = False
+            if not st.startswith('File "') and not st.startswith('Traceback') and not st.startswith('During handling'):
+                continue            # the source line under a frame
+        if st.startswith('File "'):
+            skip = True
+            continue
+        if st.startswith('Traceback (most recent call last)') or st.startswith('During handling of the above exception') \
+                or st.startswith('The above exception was the direct cause') or st.startswith('^') or not st:
+            continue
+        out.append(ln.rstrip())
+    return '\n'.join(out)
+
+
+def _first_difference(a, b):
+    la, lb = a.split('\n'), b.split('\n')
+    for i, (x, y) in enumerate(zip(la, lb)):
+        if x != y:
+            return f"line {i}: {x[:160]!r} vs {y[:160]!r}"
+    return f"{len(la)} vs {len(lb)} lines; extra: {(la[len(lb):] or lb[len(la):])[:3]!r}"
 
 
 def build_type(ty, rng=None):
